@@ -370,7 +370,19 @@ def main():
     if fn is None:
         print("no check for", pid)
         sys.exit(2)
-    rc = fn(sys.modules[__name__], res, replay)
+    try:
+        rc = fn(sys.modules[__name__], res, replay)
+    except Exception:
+        # the observations did not have the shape the comparer / judge expects (never on the unchanged tree): the
+        # correspondence cannot be evaluated, which is reported like any other obligation that no longer checks
+        import traceback
+        tb = traceback.format_exc()
+        sys.stderr.write(tb)
+        p = write_replay(res, "broken:correspondence:evaluation-failed", {"what": "the observations could not be evaluated (comparer / judge failed): the property is no longer shown to hold",
+                                                                         "traceback": tb.splitlines()[-12:], "collected_violations": res.violations[:5],
+                                                                         "broken": [{"kind": k, "name": n, "detail": d} for k, n, d in res.broken]})
+        print("VIOLATION property=%s replay=%s no-failing-input-found" % (res.pid, p))
+        rc = 1
     sys.exit(rc)
 
 
